@@ -168,8 +168,13 @@ def check(c):
     senders = [n for n in c.calls(tjm, 'process_message')
                if any(norm(a).endswith('EVENT_SUBMIT_FAILED')
                       for a in n.args)]
+    # universal over the senders; the floor counts those that are *not*
+    # covered by the after-submission argument (merging duplicate calls in a
+    # callback must not trip it)
     c.floor('C03.manual-exemption-consumed', 'submit-failed senders in '
-            'task_job_mgr', len(senders), 4)
+            'task_job_mgr outside the after-submission callbacks', len([
+                n for n in senders
+                if c.owner(n).fq not in after_submission]), 1)
 
     def is_reset(s):
         return isinstance(s, ast.Assign) and norm(
